@@ -29,3 +29,10 @@ func VerifReadFrame(conn *net.UnixConn) (typ uint8, length uint16, data []byte, 
 	}
 	return uint8(msg.Type), msg.Len, msg.Data, nil
 }
+
+// VerifCloseParentConn closes the connection to the parent, as the exit of the child process would.
+func VerifCloseParentConn(r *Restarter) {
+	if r.parentConn != nil {
+		r.parentConn.Close()
+	}
+}
